@@ -2,13 +2,13 @@ package sym
 
 import (
 	"fmt"
-	"sync"
-	"time"
 	"go/constant"
 	"go/token"
 	"go/types"
 	"math"
 	"strings"
+	"sync"
+	"time"
 
 	"golang.org/x/tools/go/ssa"
 )
@@ -62,9 +62,10 @@ type frame struct {
 }
 
 type fnInfo struct {
-	slots map[ssa.Value]int
-	n     int
-	ipdom []int
+	slots     map[ssa.Value]int
+	n         int
+	ipdom     []int
+	slotBlock []int // defining block index per slot (-1: parameter / free variable)
 }
 
 // Violation is a failed assertion or reachable panic with its model.
@@ -81,24 +82,24 @@ type Violation struct {
 
 // Stats are aggregated per harness entry.
 type Stats struct {
-	Paths         int
-	Obligations   int // vAssert evaluations
-	Discharged    int // proven by the solver (unsat)
-	Trivial       int // folded syntactically
-	Steps         int64
-	Reached       map[string]int
-	Forks         int
-	MergedBranch  int
-	ModelHits     int
-	CacheHits     int
-	Funcs         map[string]int // function -> instruction count executed at least once
-	Stubs         map[string]int
-	Intrinsics    map[string]int
-	Assumes       int
-	Samples       []map[string]interface{}
-	Unknowns      []string
-	AbortedPaths  int
-	AbortReasons  map[string]int
+	Paths        int
+	Obligations  int // vAssert evaluations
+	Discharged   int // proven by the solver (unsat)
+	Trivial      int // folded syntactically
+	Steps        int64
+	Reached      map[string]int
+	Forks        int
+	MergedBranch int
+	ModelHits    int
+	CacheHits    int
+	Funcs        map[string]int // function -> instruction count executed at least once
+	Stubs        map[string]int
+	Intrinsics   map[string]int
+	Assumes      int
+	Samples      []map[string]interface{}
+	Unknowns     []string
+	AbortedPaths int
+	AbortReasons map[string]int
 }
 
 func newStats() *Stats {
@@ -113,36 +114,36 @@ type Exec struct {
 	H    *Harness // static harness configuration
 	St   *Stats
 
-	pc      []*Term
-	trail   []decision
-	pos     int
-	minLen  int // trail prefix that must not be backtracked
-	donate  func(prefix []pick) bool
-	undo    []undoRec
-	objSeq  int
-	globals map[*ssa.Global]*Object
-	inited  map[*ssa.Package]bool
-	initing map[*ssa.Package]bool
-	persistMode bool
-	fnInfos map[*ssa.Function]*fnInfo
-	depth   int
-	steps   int64
-	nondetN map[string]int
-	vars    []*Term
-	ghost   map[string]Value
-	lastModel Model
-	violations []Violation
-	violKeys   map[string]bool
-	sampled    map[string]bool
-	curFrame   *frame
-	clock      *Term // last value returned by time.Now (non-decreasing)
-	locksHeld  int
-	maxLocks   int
-	typeIDs    map[string]types.Type
-	speculating int
-	hashSeq    int
-	Tier       int
-	uniq       map[string]*Object
+	pc            []*Term
+	trail         []decision
+	pos           int
+	minLen        int // trail prefix that must not be backtracked
+	donate        func(prefix []pick) bool
+	undo          []undoRec
+	objSeq        int
+	globals       map[*ssa.Global]*Object
+	inited        map[*ssa.Package]bool
+	initing       map[*ssa.Package]bool
+	persistMode   bool
+	fnInfos       map[*ssa.Function]*fnInfo
+	depth         int
+	steps         int64
+	nondetN       map[string]int
+	vars          []*Term
+	ghost         map[string]Value
+	lastModel     Model
+	violations    []Violation
+	violKeys      map[string]bool
+	sampled       map[string]bool
+	curFrame      *frame
+	clock         *Term // last value returned by time.Now (non-decreasing)
+	locksHeld     int
+	maxLocks      int
+	typeIDs       map[string]types.Type
+	speculating   int
+	hashSeq       int
+	Tier          int
+	uniq          map[string]*Object
 	lastRecovered *goPanic
 	inconclusive  []string
 	hashLog       [][]*Term
@@ -160,6 +161,10 @@ type Exec struct {
 	unsatCache    map[int][]unsatEntry
 }
 
+// FixedModel, when non-nil, makes every nondeterministic value concrete
+// (interpreter replay / debugging).
+var FixedModel Model
+
 // QuerySites, when non-nil, counts feasibility queries per function and result (debug).
 var QuerySites map[string]int
 var QuerySitesMu sync.Mutex
@@ -175,20 +180,21 @@ func (ex *Exec) fnInfoOf(fn *ssa.Function) *fnInfo {
 		return fi
 	}
 	fi := &fnInfo{slots: map[ssa.Value]int{}}
-	add := func(v ssa.Value) {
+	add := func(v ssa.Value, bi int) {
 		fi.slots[v] = fi.n
+		fi.slotBlock = append(fi.slotBlock, bi)
 		fi.n++
 	}
 	for _, p := range fn.Params {
-		add(p)
+		add(p, -1)
 	}
 	for _, fv := range fn.FreeVars {
-		add(fv)
+		add(fv, -1)
 	}
 	for _, b := range fn.Blocks {
 		for _, in := range b.Instrs {
 			if v, ok := in.(ssa.Value); ok {
-				add(v)
+				add(v, b.Index)
 			}
 		}
 	}
@@ -495,7 +501,6 @@ func (ex *Exec) concretizeAny(t *Term, what string) uint64 {
 	return vals[0]
 }
 
-
 // varFor introduces a fresh variable equal to t so its value can be read from a model.
 func (ex *Exec) varFor(t *Term) *Term {
 	if t.Op == OpVar {
@@ -526,6 +531,9 @@ func (ex *Exec) fresh(name string, w int) *Term {
 	full := name
 	if k > 0 {
 		full = fmt.Sprintf("%s#%d", name, k)
+	}
+	if FixedModel != nil {
+		return ex.C.Const(w, FixedModel[full])
 	}
 	v := ex.C.Var(full, w)
 	ex.vars = append(ex.vars, v)
